@@ -55,8 +55,11 @@ def sched_constants(kind, tier, depth, outdir, tp=BIG_TP, genesis=False):
 
 def sizes(tier):
     if tier == "quick":
-        return dict(per_kind=20, per_kind_g44=5, depth=36, shards=12)
-    return dict(per_kind=220, per_kind_g44=40, depth=60, shards=16)
+        return dict(per_kind=18, per_kind_g44=5, per_kind_tp=4, depth=36, shards=12)
+    return dict(per_kind=200, per_kind_g44=40, per_kind_tp=40, depth=60, shards=16)
+
+
+SMALL_TP = 30  # trusting period of the expiry schedules, in ticks
 
 
 def run_mc(tier, result, errors):
@@ -89,21 +92,23 @@ def gen_schedules(tier, seed, workdir):
 
     def one(job):
         kind, genesis = job
-        tag = kind + ("_g44" if genesis else "")
-        n = sz["per_kind_g44"] if genesis else sz["per_kind"]
+        smalltp = genesis == "tp"
+        genesis = genesis is True
+        tag = kind + ("_g44" if genesis else "_tp" if smalltp else "")
+        n = sz["per_kind_g44"] if genesis else sz["per_kind_tp"] if smalltp else sz["per_kind"]
         outdir = os.path.join(workdir, "sched_" + tag)
         os.makedirs(outdir, exist_ok=True)
         cfg = os.path.join(d, "Sched_%s.cfg" % tag)
-        vk.write_cfg(cfg, "Spec", sched_constants(kind, tier, sz["depth"], outdir, genesis=genesis))
-        vk.tlc_simulate(d, "Sched_Packet", cfg, n, sz["depth"] + 1, seed * 7 + KINDS.index(kind) + (100 if genesis else 0), workers=1)
+        vk.write_cfg(cfg, "Spec", sched_constants(kind, tier, sz["depth"], outdir, genesis=genesis, tp=SMALL_TP if smalltp else BIG_TP))
+        vk.tlc_simulate(d, "Sched_Packet", cfg, n, sz["depth"] + 1, seed * 7 + KINDS.index(kind) + (100 if genesis else 200 if smalltp else 0), workers=1)
         out = []
         for i, f in enumerate(sorted(glob.glob(os.path.join(outdir, "*.json")))):
             s = json.load(open(f))
             # G44 schedules contain genesis export/import steps; they are judged for C44 only (see attribute())
-            s["id"] = "%s%s-%d-%d" % ("G44-" if genesis else "", kind, seed, i)
+            s["id"] = "%s%s-%d-%d" % ("G44-" if genesis else "TP-" if smalltp else "", kind, seed, i)
             out.append(s)
         return out[:n]
-    for lst in vk.pmap(one, [(k, g) for k in KINDS for g in (False, True)], 3):
+    for lst in vk.pmap(one, [(k, g) for k in KINDS for g in (False, True, "tp")], 3):
         scheds.extend(lst)
     shutil.rmtree(d, ignore_errors=True)
     if len(scheds) < 3:
@@ -220,6 +225,8 @@ def coverage_of(groups):
             if a["a"] == "Init":
                 continue
             cov["%s:%s:%s" % (kind, a["a"], d["res"])] += 1
+            for c2 in ("A", "B"):
+                cov["%s:status:%s" % (kind, d["st"]["ch"][c2]["status"])] += 1
             pk = a.get("pkt") or {}
             if a["a"] in ("RecvV1", "RecvV2"):
                 tags = sorted({("w" if x[-1:].isdigit() else "") + x.rstrip("0123456789") for x in pk.get("data", [])})
@@ -258,7 +265,7 @@ FLOORS = {
     "C11": ["WriteAckV1:ok", "WriteAckV2:ok", "WriteAckV2:err"],
     "C12": ["CloseInit:ok"],
     "C14": ["ORDERED:TimeoutV1:ok"],
-    "C21": ["Freeze:ok", "Update:ok", "Update:err"],
+    "C21": ["Freeze:ok", "Update:ok", "Update:err", "status:Expired", "status:Frozen", "status:Active"],
     "C44": ["ORDERED:ExportImport:ok", "V2:ExportImport:ok"],
     "C45": ["DeterminismCompare:steps"],
 }
